@@ -8,7 +8,8 @@
 //
 // ops (';'-separated)  a<k> Add  p<k> Replace  r<k> Remove  c Clear  g<k> Get (counting comparator
 // calls)  n<k.k.k> replace the tree by stree.New(β, cmp, keys...)  ("n" alone: no keys)
-// C continue on a Clone of the tree.
+// C continue on a Clone of the tree; C<how>: the Clone is taken from inside a traversal callback of the
+// tree (round7.go: i<j> b<j> n<j> f<k> g<k>), read-only for the tree, so the same as C for the model.
 // item   a/p/r: <result 0|1>:<Len>:<height>    c/n/C: <Len>:<height>    g: <found 0|1>:<comparisons>
 // height is the largest depth of a key below the root (-1 for the empty tree), measured after the
 // op by walking the tree through Tree.Root and Cursor.HasLeft/Left/HasRight/Right/Up only.
@@ -137,11 +138,11 @@ func history(β int, ops string) string {
 			t.Clear()
 			out = append(out, st())
 		case 'C':
-			if arg != "" {
+			if !validHow(arg) {
 				return "?"
 			}
 			old := t
-			t = t.Clone()
+			t = cloneVia(old, arg)
 			old.Clear() // the clone must not depend on the original
 			out = append(out, st())
 		case 'n':
@@ -641,6 +642,7 @@ func main() {
 			}
 			genHistories(g)
 			genScale(g)
+			genRound7(g)
 			genSweep(g)
 		})
 }
